@@ -191,11 +191,13 @@ def derived_checkers(prog):
     return chk
 
 
-def recursion_rule(prog, roots_desc, slot_keys, rule, exceptions, scope=None):
-    """shared by C15/C20: cycles through `slot_keys` must be broken by guarded edges."""
+def recursion_rule(prog, roots_desc, slot_keys, rule, exceptions, scope=None, guard_fn=None, what="stack check"):
+    """shared by C15/C20/C10: cycles through `slot_keys` must be broken by guarded edges.
+    guard_fn(f, site_block, site_idx, event) -> name of the guard or None (default: dominating stack-checker call)."""
     cg = prog.callgraph()
-    chk = derived_checkers(prog)
-    rule.note("stack-checking functions: %s" % sorted(chk))
+    chk = derived_checkers(prog) if guard_fn is None else {}
+    if guard_fn is None:
+        rule.note("stack-checking functions: %s" % sorted(chk))
     comps = [c for c in cg.sccs(scope) if slot_keys is None or set(c) & slot_keys]
     unguarded_edges = {}
     total_sites = 0
@@ -209,11 +211,14 @@ def recursion_rule(prog, roots_desc, slot_keys, rule, exceptions, scope=None):
                     continue
                 total_sites += 1
                 guarded_by = None
-                for cb, ci, ce in f.calls():
-                    cal = ce.get("callee")
-                    if cal in chk and call_guards_site(f, cb, ci, ce, b, i, chk[cal]):
-                        guarded_by = cal
-                        break
+                if guard_fn is not None:
+                    guarded_by = guard_fn(f, b, i, e)
+                else:
+                    for cb, ci, ce in f.calls():
+                        cal = ce.get("callee")
+                        if cal in chk and call_guards_site(f, cb, ci, ce, b, i, chk[cal]):
+                            guarded_by = cal
+                            break
                 sk = e.get("callee") or ("->" + e.get("slot", "") if e.get("slot") else e.get("indirect", "?"))
                 if guarded_by:
                     rule.ok(f, sk, "recursive call guarded by %s" % guarded_by, e["line"])
@@ -243,8 +248,8 @@ def recursion_rule(prog, roots_desc, slot_keys, rule, exceptions, scope=None):
                     if ek in exceptions:
                         rule.exc(f, sk, exceptions[ek], line)
                     else:
-                        rule.bad(f, sk, "recursive call to %s with no stack check on the cycle {%s}" % (
-                            t, ", ".join(cyc_of)), line, witness={"cycle": cyc_of})
+                        rule.bad(f, sk, "recursive call to %s with no %s on the cycle {%s}" % (
+                            t, what, ", ".join(cyc_of)), line, witness={"cycle": cyc_of})
                 else:
                     rule.ok(f, sk, "unguarded call to %s, but every cycle through it passes a guarded edge" % t, line)
     rule.note("%s: %d recursive components, %d recursive call sites, %d unguarded cycles" % (roots_desc, len(comps), total_sites, len(cyc)))
